@@ -1,10 +1,11 @@
 SPECIFICATION Spec
 CONSTANTS
-  Chars = {"0", "1", "7", "9", "a", "F", "x", "b", "'", "\\", "u", "l", "L", "n"}
-  MaxLen = 5
+  Chars <- CharsQuick
+  MaxLen = 4
 INVARIANT HornerOK
 INVARIANT SepOK
 INVARIANT RangeOK
 INVARIANT SufOK
+INVARIANT PrefixOK
 CONSTRAINT DumpConstraint
 CHECK_DEADLOCK FALSE
